@@ -174,6 +174,22 @@ def run_child(spec):
         except OSError:
             logtxt = ""
         m = re.search(r"^(panic: .*|fatal error: .*|SIGSEGV: .*|SIGBUS: .*)$", logtxt, re.M)
+        # testing/synctest (go1.25.1) occasionally aborts with "WaitGroup.Add called from multiple synctest
+        # bubbles" for the per-publish WaitGroup of PublishContext - a local variable that no two bubbles can
+        # share (its memory was used by a WaitGroup of an earlier bubble). That is bookkeeping of the virtual-
+        # time test environment, not behaviour of the code under test: such a shard is run again (3 tries).
+        tries = 0
+        while m and "called from multiple synctest bubbles" in m.group(1) and tries < 3:
+            tries += 1
+            shutil.copy(log, log + ".synctest%d" % tries)
+            with open(log, "w") as f:
+                f.write("(attempt %d: the one before was aborted by testing/synctest's WaitGroup bookkeeping, see %s.synctest%d)\n" % (tries + 1, os.path.basename(log), tries))
+                f.flush()
+                p = subprocess.run(cmd, cwd=os.path.dirname(log), env=env, stdout=f, stderr=subprocess.STDOUT)
+            if p.returncode in (0, 124, 137) or os.path.exists(env.get("VERIF_OUT", "")):
+                return p.returncode, time.time() - t0
+            logtxt = open(log, errors="replace").read()
+            m = re.search(r"^(panic: .*|fatal error: .*|SIGSEGV: .*|SIGBUS: .*)$", logtxt, re.M)
         if m and not has_ebu_frame(crash_stack(logtxt, m.group(1)), env.get("VERIF_REPO", "/repo")) and "verif/harness" not in crash_stack(logtxt, m.group(1)).split("\n\ngoroutine ")[0]:
             shutil.copy(log, log + ".first")
             with open(log, "w") as f:
